@@ -42,9 +42,29 @@ function runJob(job) {
       const log = job.log ? [] : null
       const r = new rt.Runtime(log)
       if (job.slotValues) r.slotValues = rt.decodeValue(job.slotValues)
+      let inst = null
+      let prevData = null
       for (const step of job.steps) {
         if (log) log.length = 0
-        if ('create' in step) {
+        if ('changes' in step) {
+          // data changes handed to the real runtime's template instance (tmpl/index.ts updateValues)
+          const changes = step.changes.map((c) => {
+            const path = c.path.map((x) => (/^(0|[1-9][0-9]*)$/.test(x) ? Number(x) : x))
+            const v = rt.decodeValue(c.value)
+            return c.index === undefined ? [path, v, undefined, undefined] : [path, v, c.index, c.del]
+          })
+          const newData = rt.decodeValue(step.data)
+          inst.updateValues(newData, changes)
+          if (!out.how) out.how = []
+          // does the tree the runtime built cover the difference of the two data values (the premise of C06)?
+          const viaMap = r.lastTree === 'binding-map'
+          out.how.push(viaMap ? 'binding-map' : rt.covers(r.lastTree, prevData, newData) ? 'tree' : 'tree-not-covering')
+          prevData = newData
+        } else if ('create' in step && job.mode) {
+          inst = r.realInstance(procGen, job.mode)
+          prevData = rt.decodeValue(step.create)
+          inst.initValues(prevData)
+        } else if ('create' in step) {
           const res = r.create(procGen, rt.decodeValue(step.create))
           const B = {}
           if (res.B) for (const k of Object.keys(res.B)) B[k] = res.B[k].length
